@@ -155,6 +155,7 @@ pub fn run(ctx: &Ctx) {
     cells.extend(extra_cells(ctx.seed, if thorough { 16 } else { 4 }));
     let n_env = cells.len();
     cells.extend(extreme_cells());
+    cells.extend(crate::envelope::hyper_huge_cells());
     let mut seen = std::collections::HashSet::new();
     cells.retain(|c| seen.insert(c.key()));
     ctx.set_extra("cells", json!({"envelope_and_grid": n_env, "total_with_extremes": cells.len()}));
@@ -369,7 +370,8 @@ fn worker_adversarial(ctx: &Ctx, slot: &Slot, cell: &Cell, lat: &[u64], thorough
     let seeds = if thorough { 32 } else { 6 };
     let mut ev = 0u64;
     let mut nt = 0u64;
-    for sd in 0..seeds {
+    let mut budget_hits = 0u32;
+    'seeds: for sd in 0..seeds {
         let seed = hseed(&[ctx.seed, cell.hash64(), sd, 0xAD5]);
         for pos in 0..8u64 {
             for (wi, &w) in lat.iter().enumerate() {
@@ -394,6 +396,7 @@ fn worker_adversarial(ctx: &Ctx, slot: &Slot, cell: &Cell, lat: &[u64], thorough
                     }
                     if let Err(msg) = r {
                         if msg.starts_with("WORD_BUDGET") {
+                            budget_hits += 1;
                             ctx.violation(Violation {
                                 property: ctx.property.clone(),
                                 family: cell.fam.name(),
@@ -403,6 +406,11 @@ fn worker_adversarial(ctx: &Ctx, slot: &Slot, cell: &Cell, lat: &[u64], thorough
                                 what: format!("{}: more than 1e5 words in one call with word {:#x} at position {}", cell.key(), w, pos),
                                 case: json!({"kind": "stream", "stream": case, "cell": cell}),
                             });
+                            // every further call on this cell would cost 1e5 words and say the same thing
+                            if budget_hits >= 3 {
+                                ctx.class("cells_left_after_3_word_budget_violations", 1);
+                                break 'seeds;
+                            }
                         }
                     }
                 }
